@@ -99,6 +99,10 @@ pub struct C15Case {
     pub handler_ctx: u8,
     pub appends: Vec<AppendStmt>,
     pub fail: FailAt,
+    /// how the closure fails: false = `error make`, true = a built-in store command given a
+    /// malformed argument (`.cat --last-id "not-an-id"`)
+    #[serde(default)]
+    pub fail_in_builtin: bool,
     pub ret: Val,
     pub suffix: Option<String>,
     pub ret_ttl: Option<WTtl>,
@@ -183,7 +187,7 @@ pub fn strategy() -> BoxedStrategy<C15Case> {
     (
         0u8..3,
         proptest::collection::vec(stmt, 0..=4),
-        prop_oneof![3 => Just(FailAt::No), 2 => (0u8..5).prop_map(FailAt::Before)],
+        (prop_oneof![3 => Just(FailAt::No), 2 => (0u8..5).prop_map(FailAt::Before)], proptest::bool::weighted(0.3)),
         val_any(),
         proptest::option::weighted(0.4, proptest::sample::select(vec![".done", ".x", "-r", ".out2"]).prop_map(|s| s.to_string())),
         prop_oneof![
@@ -195,10 +199,11 @@ pub fn strategy() -> BoxedStrategy<C15Case> {
         ],
         proptest::collection::vec((0u8..5, any::<bool>()), 1..=3),
     )
-        .prop_map(|(handler_ctx, appends, fail, ret, suffix, ret_ttl, triggers)| C15Case {
+        .prop_map(|(handler_ctx, appends, (fail, fail_in_builtin), ret, suffix, ret_ttl, triggers)| C15Case {
             handler_ctx,
             appends,
             fail,
+            fail_in_builtin,
             ret,
             suffix,
             ret_ttl,
@@ -222,13 +227,18 @@ pub fn render(case: &C15Case, ctxs: &[u128]) -> String {
     s.push_str("  run: {|frame|\n");
     s.push_str("    if $frame.topic == \"fin\" { return \"fin\" }\n");
     s.push_str("    if $frame.topic != \"trig\" { return }\n");
+    let fail_stmt = if case.fail_in_builtin {
+        "    .cat --last-id \"not-an-id\" | ignore\n"
+    } else {
+        "    error make {msg: \"boom\"}\n"
+    };
     let fail_pos = match case.fail {
         FailAt::No => None,
         FailAt::Before(i) => Some((i as usize).min(case.appends.len())),
     };
     for (i, a) in case.appends.iter().enumerate() {
         if fail_pos == Some(i) {
-            s.push_str("    error make {msg: \"boom\"}\n");
+            s.push_str(fail_stmt);
         }
         let input = if a.echo {
             "(if ($frame.hash? != null) { .cas $frame.hash } else { null })".to_string()
@@ -252,7 +262,7 @@ pub fn render(case: &C15Case, ctxs: &[u128]) -> String {
         s.push('\n');
     }
     if fail_pos == Some(case.appends.len()) {
-        s.push_str("    error make {msg: \"boom\"}\n");
+        s.push_str(fail_stmt);
     }
     s.push_str(&format!("    {}\n", case.ret.nu()));
     s.push_str("  }\n}\n");
@@ -452,6 +462,7 @@ fn run_in(case: &C15Case, nu: &mut Nu) -> Result<CaseInfo, Fail> {
     let mut labels = vec![];
     for (on, name) in [
         (will_fail, "closure-fails"),
+        (will_fail && case.fail_in_builtin, "closure-fails-inside-builtin-command"),
         (fail_after_buffered, "failure-after-buffered-append"),
         (colliding, "user-meta-collides-with-stamps"),
         (case.handler_ctx != 0, "handler-in-registered-context"),
